@@ -105,20 +105,37 @@ def letterOf (e : Sexp) : Option Char :=
 
 def typeKey (c : Char) : Key := canon { auth := runtimeAuthority, ns := "type", name := String.singleton c }
 
+/-- a file of the directory: `xN` (types/n.pp defines N), `(bad xN)` (n.pp does not parse), `(mis xN)` (n.pp defines another
+    name) — the letter and, for a file whose instantiator raises, the issue code -/
+def fileOfSexp : Sexp → Option (Char × Option String)
+  | .list [.atom "bad", x] => (letterOf x).map fun c => (c, some "PARSE_ERROR")
+  | .list [.atom "mis", x] => (letterOf x).map fun c => (c, some "PCORE_WRONG_DEFINITION")
+  | x => (letterOf x).map fun c => (c, (none : Option String))
+
+def fopOf : Sexp → Option Pcore.Instantiate.FOp
+  | .list [.atom "load", x] => (letterOf x).map fun c => Pcore.Instantiate.FOp.load (typeKey c)
+  | .list [.atom "loadp", x] => (letterOf x).map fun c => Pcore.Instantiate.FOp.loadParent (typeKey c)
+  | _ => none
+
+def fthreadOf : Sexp → Option (List Pcore.Instantiate.FOp)
+  | .list (.atom "th" :: ops) => ops.mapM fopOf
+  | _ => none
+
 def filesExec (fs ths sch : List Sexp) : String :=
-  match fs.mapM letterOf, ths.mapM (fun t => match t with
-      | .list (.atom "th" :: ops) => ops.mapM fun o => match o with
-        | .list [.atom "load", x] => (letterOf x).map fun c => Pcore.Instantiate.FOp.load (typeKey c)
-        | .list [.atom "loadp", x] => (letterOf x).map fun c => Pcore.Instantiate.FOp.loadParent (typeKey c)
-        | _ => none
-      | _ => none), sch.mapM Sexp.nat? with
-  | some letters, some (p :: progs), some sched =>
-    let lows := letters.map lowerChar
+  let fl? : Option (List (Char × Option String)) := fs.mapM fileOfSexp
+  let th? : Option (List (List Pcore.Instantiate.FOp)) := ths.mapM fthreadOf
+  match fl?, th?, sch.mapM Sexp.nat? with
+  | some fl, some (p :: progs), some sched =>
+    let lows : List Char := fl.map fun (f : Char × Option String) => lowerChar f.1
     if lows.eraseDups.length != lows.length then "bad-op"
     else
-      let files := (lows.zip (List.range lows.length)).map fun (c, i) =>
-        (typeKey c, V.al (String.singleton c.toUpper) (i + 1))
-      let c := Pcore.Instantiate.execute files (p :: progs) sched
+      let numbered : List (Char × Option String × Nat) := (fl.zip (List.range fl.length)).map fun (f, i) => (lowerChar f.1, f.2, i)
+      let files := numbered.filterMap fun (c, code, i) =>
+        match code with
+        | none => some (typeKey c, V.al (String.singleton c.toUpper) (i + 1))
+        | some _ => none
+      let broken := numbered.filterMap fun (c, code, _) => code.map fun cd => (typeKey c, cd)
+      let c := Pcore.Instantiate.executeB files broken (p :: progs) sched
       let rec go (i : Nat) : List Pcore.Instantiate.Thread → List String
         | [] => []
         | t :: r => s!"{i}:[{" ; ".intercalate (t.log.map C12.ansStr)}]" :: go (i + 1) r
